@@ -108,6 +108,17 @@ func cmdGrpc(args []string) {
 			&R{Op: "wrap", Kids: []*R{{Op: op, Kids: []*R{{Op: "stdnew", S: []string{"plain"}}, coded(7, "denied")}}}, S: []string{"ctx"}},
 			&R{Op: "grpc", Kids: []*R{{Op: op, Kids: []*R{coded(5, "nf"), coded(9, "fp")}}}, I: []int64{14}})
 	}
+	// nested codes: the outermost attached code is the code of the error, whatever the two codes are
+	// (OK, Unknown and application-defined ones included)
+	for _, outer := range []int64{0, 1, 2, 5, 13, 42} {
+		for _, inner := range []int64{0, 2, 5, 14, 99} {
+			if outer == inner {
+				continue
+			}
+			corpus = append(corpus, &R{Op: "grpc", Kids: []*R{coded(inner, "inner")}, I: []int64{outer}},
+				&R{Op: "grpc", Kids: []*R{{Op: "wrap", Kids: []*R{coded(inner, "inner")}, S: []string{"mid"}}}, I: []int64{outer}})
+		}
+	}
 	for _, kind := range []string{"cause", "unwrap", "both", "nocmp"} {
 		corpus = append(corpus,
 			&R{Op: "uwrap", S: []string{kind, "legacy"}, Kids: []*R{coded(5, "nf")}, Strs: []string{}},
